@@ -2,10 +2,10 @@
 from __future__ import annotations
 import math
 import numpy as np
-import impl, gen, evalutil as E
+import forms, impl, gen, evalutil as E
 from common import same_value
 
-RULE = ("the scenarios also through other public forms (handler objects built positionally in the documented order; panoptic_evaluate called directly with keyword arguments); half of the cases on long-lived evaluators that see the four scenarios in random order; random edge-case handlers (per metric 4 scenario values drawn without replacement from the 5 possible results, "
+RULE = ("the scenarios with log_times / verbose switched on (constructor option, call keyword, function keyword) and under a strict process state (numpy raising on every floating-point anomaly, warnings as errors); the scenarios also through other public forms (handler objects built positionally in the documented order; panoptic_evaluate called directly with keyword arguments); half of the cases on long-lived evaluators that see the four scenarios in random order; random edge-case handlers (per metric 4 scenario values drawn without replacement from the 5 possible results, "
         "random empty-list value) x scenario {no instances, empty prediction, empty reference, instances without a match} "
         "x input type {SEMANTIC, UNMATCHED, MATCHED} x metric selections; plus tp>0 cases under two different handlers; "
         "non-trivial = handler with pairwise distinct scenario values for some evaluated metric and a zero-TP scenario")
@@ -228,16 +228,20 @@ def entry_form_case(ctx, pred, ref, cfg, scen, form, src):
     hnd = handler_positional(cfg["handler"]) if "positional" in form else impl.mk_handler(cfg["handler"])
     metrics = [impl.METRICS[m] for m in cfg["eval_metrics"]]
     matcher = impl.mk_matcher(cfg["matcher"]) if cfg.get("matcher") else None
+    import contextlib
+    lt = "log_times" in form
+    state = forms.strict_state() if "strict" in form else np.errstate(all="ignore")
     try:
-        with impl.quiet(), np.errstate(all="ignore"):
+        with impl.quiet(), state:
             if "function" in form:
                 pair = {"SEMANTIC": SemanticPair, "UNMATCHED": UnmatchedInstancePair, "MATCHED": MatchedInstancePair}[cfg["input"]](pred.copy(), ref.copy())
                 r, _ = panoptic_evaluate(pair, instance_approximator=ConnectedComponentsInstanceApproximator(), instance_matcher=matcher,
-                                         instance_metrics=metrics, global_metrics=[], edge_case_handler=hnd)
+                                         instance_metrics=metrics, global_metrics=[], edge_case_handler=hnd, log_times=lt, verbose=lt)
             else:
                 ev = Panoptica_Evaluator(expected_input=impl.INPUT[cfg["input"]], instance_approximator=ConnectedComponentsInstanceApproximator(),
-                                         instance_matcher=matcher, edge_case_handler=hnd, instance_metrics=metrics, global_metrics=[])
-                r = ev.evaluate(pred.copy(), ref.copy())["ungrouped"][0]
+                                         instance_matcher=matcher, edge_case_handler=hnd, instance_metrics=metrics, global_metrics=[],
+                                         log_times=lt and "ctor" in form)
+                r = ev.evaluate(pred.copy(), ref.copy(), **({"log_times": True, "verbose": True} if lt and "ctor" not in form else {}))["ungrouped"][0]
             s = impl.result_summary(r, cfg["eval_metrics"])
     except Exception as e:
         ctx.violation(f"evaluation ({form}) raised {type(e).__name__} in zero-TP scenario {scen}", inp, key={"kind": "raises"})
@@ -258,7 +262,9 @@ def entry_form_cases(ctx, n):
         if arrs is None:
             continue
         cfg = E.mk_cfg(it, metrics, matcher=E.naive("IOU", (1, 2)) if it != "MATCHED" else None, handler=hnd)
-        entry_form_case(ctx, arrs[0], arrs[1], cfg, scen, rng.choice(["evaluator+positional-handler", "function+keyword-handler", "function+positional-handler"]),
+        entry_form_case(ctx, arrs[0], arrs[1], cfg, scen, rng.choice(["evaluator+positional-handler", "function+keyword-handler", "function+positional-handler",
+                                                                     "evaluator+log_times", "evaluator+ctor+log_times", "function+log_times",
+                                                                     "evaluator+strict-numeric-state", "function+strict-numeric-state"]),
                         f"form{i}")
 
 
